@@ -91,3 +91,20 @@ Definition rings_length (rs : list (list num)) : lenres :=
 (* every ring spans whole (x, y) pairs: the constructor rejects odd inner offsets *)
 Definition even_inner (a : listarr) : bool :=
   forallb Nat.even (last (la_offs a) []).
+
+(* ---- what the correspondence check compares: decoded elements, not buffer layouts ---- *)
+
+(* every element as its parts, each a list of rings (one part for the kinds below
+   multipolygon); None = missing *)
+Definition decode_elems (k : kind) (a : listarr) : list (option (list (list (list num)))) :=
+  map (fun i => if isna_at (la_valid a) (la_off a) i then None
+                else Some (match k with
+                           | KMultiPolygon => elem_parts a i
+                           | _ => [elem_rings a i]
+                           end))
+      (seq 0 (la_len a)).
+
+(* rows outside the property's scope for areas (unclosed rings, rings with non-finite
+   vertices) are compared as "anything": both sides are set to None there *)
+Definition mask_num (mask : list bool) (vs : list num) : list num :=
+  map (fun mv => if fst mv : bool then snd mv else None) (combine mask vs).
